@@ -65,6 +65,8 @@ type fragReader struct {
 	sizes func(remaining int) int
 	errAt int // inject err when pos reaches errAt (>=0)
 	err   error
+	// withData: the last bytes come together with io.EOF (or with the injected error), as a QUIC stream does on FIN
+	withData bool
 }
 
 func (f *fragReader) Read(p []byte) (int, error) {
@@ -92,6 +94,14 @@ func (f *fragReader) Read(p []byte) (int, error) {
 	}
 	copy(p, f.data[f.pos:f.pos+n])
 	f.pos += n
+	if f.withData {
+		if f.errAt >= 0 && f.pos >= f.errAt {
+			return n, f.err
+		}
+		if f.pos >= len(f.data) {
+			return n, io.EOF
+		}
+	}
 	return n, nil
 }
 
@@ -522,7 +532,12 @@ type rdCase struct {
 func runReader(c rdCase, newConn func(st *memStream) (*webtrans.Conn, func() bool)) (ops []rdOp, pan string, closed bool, streamRead int) {
 	r := rand.New(rand.NewSource(c.Seed))
 	fr := &fragReader{data: c.Stream, errAt: c.ErrAt, err: errInjected}
-	switch c.Frag {
+	frag := c.Frag
+	if strings.HasSuffix(frag, "+eof") {
+		fr.withData = true
+		frag = strings.TrimSuffix(frag, "+eof")
+	}
+	switch frag {
 	case "one":
 		fr.sizes = func(int) int { return 1 }
 	case "all":
@@ -607,7 +622,7 @@ func runReader(c rdCase, newConn func(st *memStream) (*webtrans.Conn, func() boo
 		for k := 0; k < maxReads; k++ {
 			sz := 1 + r.Intn(1+r.Intn(300))
 			if c.Pattern == "message" && r.Intn(2) == 0 {
-				sz = 512 << uint(r.Intn(4))
+				sz = 512 << uint(r.Intn(6)) // up to 16 KiB: reads larger than the read buffer bypass it
 			}
 			buf := make([]byte, sz)
 			n, e := rd.Read(buf)
@@ -706,6 +721,34 @@ func rdCases(seed int64, nRandom int) []rdCase {
 		s := append(frame(false, 7, 9), frame(true, 16, 130)...)
 		for at := 0; at <= len(s); at += 1 + at/20 {
 			add(fmt.Sprintf("inj%d", at), s, 0, at, pats[at%4], frags[at%3])
+		}
+	}
+	// the same with a first message long enough to be consumed partly: every offset x every consumption pattern,
+	// the failure arriving alone or together with the last bytes
+	{
+		s := append(frame(true, 16, 600), frame(false, 7, 20)...)
+		s = append(s, frame(true, 16, 200)...)
+		for at := 0; at <= len(s); at += 1 + at/40 {
+			for pi, pat := range pats {
+				add(fmt.Sprintf("injp%d_%s", at, pat), s, 0, at, pat, []string{"all", "rand", "all+eof", "rand+eof"}[(at+pi)%4])
+			}
+		}
+	}
+	// truncated frames whose last bytes arrive together with the end of the stream, read with buffers of every size
+	for i, n := range []int{300, 6000, 130, 70000} {
+		for _, keep := range []int{n * 2 / 3, n - 1, 1} {
+			form := 64
+			if n < 65536 && i%2 == 1 {
+				form = 16
+			}
+			s := append(hdrBytes(i%2 == 0, form, uint64(n)), wtPayload(int64(i), keep)...)
+			for _, fg := range []string{"all+eof", "rand+eof", "one+eof"} {
+				if fg == "one+eof" && keep > 2000 {
+					continue
+				}
+				add(fmt.Sprintf("eoft%d_%d_%s", i, keep, fg), s, 0, -1, "message", fg)
+				add(fmt.Sprintf("eoftp%d_%d_%s", i, keep, fg), append(frame(false, 7, 5), s...), 0, -1, "partial", fg)
+			}
 		}
 	}
 	// huge declared lengths
